@@ -594,7 +594,7 @@ var c14Catalogue = []c14ColSpec{
 	{typ: "IPv4"}, {typ: "IPv6"},
 	{typ: "FixedString(8)", bytesLen: 8}, {typ: "FixedString(16)", bytesLen: 16}, {typ: "FixedString(512)", bytesLen: 512},
 	{typ: "Decimal32(4)"}, {typ: "Decimal64(6)"}, {typ: "Decimal128(10)"}, {typ: "Decimal256(20)"}, {typ: "Decimal(12, 3)"},
-	{typ: "Enum8('a' = 1, 'b' = 2)", strPool: []string{"a", "b"}}, {typ: "Enum16('x' = 1000, 'y' = -5, 'z' = 7)", strPool: []string{"x", "y", "z"}},
+	{typ: "Enum8('a' = 1, 'b' = 2)", strPool: []string{"a", "b"}}, {typ: "Enum8('unknown' = 0, 'ok' = 1, 'failed' = -1)", strPool: []string{"unknown", "unknown", "ok", "failed"}}, {typ: "Enum16('x' = 1000, 'y' = -5, 'z' = 7)", strPool: []string{"x", "y", "z"}},
 	{typ: "IntervalSecond"}, {typ: "IntervalYear"},
 	{typ: "Array(String)"}, {typ: "Array(UInt32)"}, {typ: "Array(Int8)"},
 	{typ: "Array(FixedString(8))", bytesLen: 8}, {typ: "Array(UUID)"}, {typ: "Array(DateTime)"}, {typ: "Array(Bool)"},
